@@ -7,6 +7,7 @@ import inst_check
 ASSUMPTIONS = [
     "theorems: class tables without do_not_copy=True classes and without plain subclasses; callbacks and default factories embed no heap references; history theorem (class-level defaults isolated) for the alphabet hist_op_ok of coq/Inst/SepProofs.v",
     "oracles (on the implementation's canonical object graphs): a new instance shares nothing with anything that existed before (class defaults, constructor arguments, peers) except through do_not_copy attributes; class-level default objects are never reachable from any other root; `same` assertions: the attribute after reset_<a> / reset / del (in place or on a copy) equals the attribute of a freshly constructed instance of the same class",
+    "the reset histories also report oracle bit 4 (a copy produced by reset_<a>() / reset() shares a mutable object with the instance it was made from): two instances sharing state is a violation of 'nor any other instance'",
     "every way of declaring a default that the class grammar of inst_common renders: literal, mutable literal, Attr(default=), Attr(default_factory=), dataclasses.field(default=/default_factory=), override (int and mutable list/dict) in a spec subclass; overrides in PLAIN subclasses are not rendered by inst_common (c_overrides / c_owner are fixed by its printer) and are exercised on the implementation only (plain_subclass_probe)",
 ]
 GENS = [
@@ -63,7 +64,7 @@ def targeted(chk, cases, bad, extra):
     n = 220 if chk.tier == "quick" else 4500
     n_ops = 6 if chk.tier == "quick" else 9
     mine = [c08_gen.sanitize(c08_gen.gen_case_c08(chk.rng, n_ops)) for _ in range(n)]
-    c02_gen.report(chk, "C08", 32 | 128, mine, extra, "reset_histories", sig_fn=c08_gen.same_signature)
+    c02_gen.report(chk, "C08", 32 | 128 | 4, mine, extra, "reset_histories", sig_fn=c08_gen.same_signature)
     same = sum(1 for c in mine for op, _ in c["ops"] if op[0] == "same")
     extra["reset_histories"]["same_assertions"] = same
     plain_subclass_probe(chk, extra)
@@ -72,5 +73,13 @@ def targeted(chk, cases, bad, extra):
 
 def main(tier, replay=None):
     if replay:
-        return inst_check.replay("C08", replay, 32 | 128)
+        import json
+        r = json.load(open(replay))
+        if r.get("kind") == "plain-subclass":
+            from common import Check
+            chk, extra = Check("C08", "quick"), {}
+            plain_subclass_probe(chk, extra)
+            print("replay:", "still failing" if extra["plain_subclass_probe"]["failing"] else "passes now", extra)
+            return 1 if extra["plain_subclass_probe"]["failing"] else 0
+        return inst_check.replay("C08", replay, 32 | 128 | 4)
     return inst_check.run("C08", tier, 32 | 128, GENS, 90, 2500, ASSUMPTIONS, post=targeted)
